@@ -33,6 +33,14 @@ pub fn ops_at(sc: &[ScriptEntry], i: usize) -> Vec<crate::exec_conc::Call2> {
     sc.iter().filter(|e| e.at == Some(i) || (e.at.is_none() && i < e.below)).flat_map(|e| e.ops.clone()).collect()
 }
 
+pub fn unhex(h: &str) -> Vec<u8> {
+    let b = h.strip_prefix('x').unwrap_or(h).as_bytes();
+    (0..b.len() / 2).map(|i| u8::from_str_radix(std::str::from_utf8(&b[2 * i..2 * i + 2]).unwrap_or("0"), 16).unwrap_or(0)).collect()
+}
+pub fn hex(b: &[u8]) -> String {
+    std::iter::once("x".to_string()).chain(b.iter().map(|x| format!("{x:02x}"))).collect()
+}
+
 pub type Doc = (Vec<(usize, i64)>, Vec<(usize, usize, u32)>);
 
 /// independent typing of a JSON document for the model (`@abs=` annotation):
